@@ -91,7 +91,7 @@ fn default_mode() -> u32 {
 
 impl Node {
     pub fn to_json(&self) -> Value {
-        json!({"p": self.p, "k": self.k, "c": abstract_content(&self.c), "t": self.t, "mt": [self.mt.0, self.mt.1],
+        json!({"p": self.p, "k": self.k, "c": abstract_content(&self.c), "t": self.t, "mt": [crate::decode::clamp_i32(self.mt.0), self.mt.1],
                "mode": self.mode, "u": self.u, "g": self.g})
     }
     pub fn rel_path(&self) -> PathBuf {
